@@ -93,6 +93,47 @@ def lexAux (q : Quote) : Nat → List Nat → Bytes → Result
 
 def lexString (q : Quote) (s : Bytes) : Result := lexAux q (s.length + 1) [] s
 
+/-- Lexical state of JavaScript source text as far as string literals are concerned: code, inside a
+    literal of one of the three kinds, or inside a comment. No regular-expression literals and no `${…}`
+    substitutions (scripts containing them are outside what is claimed about the parser's tracker). -/
+inductive SrcState
+  | code | str (q : Quote) | lineComment | blockComment
+deriving DecidableEq, Repr
+
+/-- One step over source text; returns the new state and how many bytes were consumed (1 or 2; 3 for `\` CR LF). -/
+def srcStep (st : SrcState) (s : Bytes) : SrcState × Nat :=
+  match st, s with
+  | _, [] => (st, 1)
+  | .code, 39 :: _ => (.str .single, 1)
+  | .code, 34 :: _ => (.str .double, 1)
+  | .code, 96 :: _ => (.str .backtick, 1)
+  | .code, 47 :: 47 :: _ => (.lineComment, 2)
+  | .code, 47 :: 42 :: _ => (.blockComment, 2)
+  | .code, _ => (.code, 1)
+  | .lineComment, b :: _ => if b == 10 || b == 13 then (.code, 1) else (.lineComment, 1)
+  | .blockComment, 42 :: 47 :: _ => (.code, 2)
+  | .blockComment, _ => (.blockComment, 1)
+  | .str _, 92 :: 13 :: 10 :: _ => (st, 3)          -- line continuation: backslash CR LF is ONE escape
+  | .str _, 92 :: _ :: _ => (st, 2)
+  | .str q, b :: _ =>
+    if b == q.byte then (.code, 1)
+    else if q != .backtick && (b == 10 || b == 13) then (.code, 1)   -- unterminated literal ends at the line end
+    else (st, 1)
+
+/-- Walk a script in which the bytes `{{ v }}` mark Go expressions (zero-width for JavaScript); returns, for
+    each marker in order, whether it is inside a string literal. -/
+def markerFlagsAux (marker : Bytes) : Nat → SrcState → Bytes → List Bool
+  | 0, _, _ => []
+  | _, _, [] => []
+  | fuel + 1, st, s@(_ :: _) =>
+    if List.isPrefixOf marker s then
+      (match st with | .str _ => true | _ => false) :: markerFlagsAux marker fuel st (s.drop marker.length)
+    else
+      let (st', n) := srcStep st s
+      markerFlagsAux marker fuel st' (s.drop (max n 1))
+
+def markerFlags (marker script : Bytes) : List Bool := markerFlagsAux marker (script.length + 1) .code script
+
 /-- HTML side of a script element's text: it must not contain `</script` (any case) followed by a tag-name
     delimiter, nor `<!--`. A sufficient check used by the theorems: no `<` at all. -/
 def scriptDataSafe (s : Bytes) : Bool := !s.contains 60
